@@ -16,7 +16,7 @@ TECHNIQUE = "bounded exhaustive enumeration of object-file layouts x code bodies
 RULE = ("object files built with the real assembler: 4 section layouts (one .text; two executable sections; executable + data "
         "+ .plt-named executable section; no executable section) x B code bodies (hand-written functions and C08 byte "
         "windows) x ELF class {elf64, elf32} x EVERY sections list in {absent, [], each single section name of the layout, "
-        "each ordered pair, a name not in the file, present+absent in both orders} x 4 rules x {first, all} modes, all "
+        "each ordered pair, a name not in the file, present+absent in both orders} x 4 rules x {first, all} modes, and each sections list combined with the other rule options (valid_addr_range covering part of the code, both full-match flags) for 2 rules, all "
         "executed in one process per shard so that consecutive operations have different sections lists. Oracle: the "
         "harness runs `objdump -d -M att [-j s]... file` itself; if objdump exits non-zero the binary route must raise; "
         "otherwise the instruction stream and the result lists of the binary route equal those of the assembly route on "
@@ -42,6 +42,11 @@ RAW = [bytes.fromhex("4048ffc0c3") + ob.NOP_SLED[:3], bytes.fromhex("06670000c3"
 
 RULES = [["ret"], ["push"], [{"$not": ["ret"]}, "ret"], [{"mov": ["@any0", "@any0"]}]]
 RULES = [["ret"], ["push"], [{"$not": ["ret"]}, "ret"], ["inc"]]
+
+
+# options that have nothing to do with disassembling; the address range covers only part of every body
+OTHER_OPTIONS = [{"valid_addr_range": {"min": "1", "max": "5"}}, {"mnemonics-full-match": True, "operands-full-match": True},
+                 {"valid_addr_range": {"min": "0x4", "max": "0x4"}, "mnemonics-full-match": True}]
 
 
 def bounds(tier):
@@ -169,8 +174,12 @@ def run_shard(shard, tier, h, res, known):
             prior.append(sections)
             cmd = ["objdump", "-d", "-M", "att"] + [x for s in (sections or []) for x in ("-j", s)] + [obj]
             ref = subprocess.run([c if i else "/usr/bin/objdump" for i, c in enumerate(cmd)], capture_output=True, text=True)
-            for rule in RULES:
-                for mode in ("first", "all"):
+            # the other options of a rule meet the sections list: they must not change what is disassembled
+            combos = [(rule, mode, conf) for rule in RULES for mode in ("first", "all")]
+            for extra in OTHER_OPTIONS:
+                combos += [(rule, "all", {**conf, **extra}) for rule in RULES[:2]]
+            for rule, mode, conf in combos:
+                if True:
                     res.evaluations += 1
                     case = {"family": "bin", "elfclass": cls, "source": src, "config": conf, "rule": make_rule_doc(rule, conf),
                             "mode": mode, "size": len(src) + len(str(sections)), "sections_lists_run_before": list(prior[:-1])}
